@@ -206,9 +206,14 @@ theorem C08_classes_partial (i : Nat) (name : String) (ai : Nat) (po ar va ko kd
       (analyze (.functionDef i name (.arguments ai po ar va ko kd kw df) body decos returns false)) i [] = some cls ∧
       cls.params = ca.paramNames.names ∧ cls.globals = cI.globals.names ∧ cls.nonlocals = cI.nonlocals.names ∧
       cls.locals = cI.bound.names.filter (fun x => !cI.globals.names.contains x && !cI.nonlocals.names.contains x) := by
-    refine ⟨_, ?_, ?_, ?_, ?_, ?_⟩
-    · simp only [classify, h1, argsIdS, beq_self_eq_true, ↓reduceIte, Option.bind_some, Expr.id, h2]
-    all_goals rfl
+    refine ⟨{ id := i, params := ca.paramNames.names, bound := cI.bound.names, globals := cI.globals.names,
+              nonlocals := cI.nonlocals.names,
+              locals := cI.bound.names.filter (fun x => !cI.globals.names.contains x && !cI.nonlocals.names.contains x),
+              freeVars := cI.freeVars.names,
+              frees := (cI.freeVars.names ++ cI.nonlocals.names).filter (fun x => !cI.globals.names.contains x &&
+                resolveAct (analyze (.functionDef i name (.arguments ai po ar va ko kd kw df) body decos returns false)) [] x == .enclosing) },
+            ?_, rfl, rfl, rfl, rfl⟩
+    simp only [classify, h1, argsIdS, beq_self_eq_true, ↓reduceIte, Option.bind_some, Expr.id, h2]
   obtain ⟨cls, hc0, hcp, hcg, hcn, hcl⟩ := hcls
   refine ⟨cls, info, irest, hc0, ?_, hid, ?_, ?_, ?_, ?_⟩
   · simp only [Spec.table, hblk, Acc.toBlock]; exact htab
